@@ -139,6 +139,16 @@ def impl(case):
             out['rates'] = {f'{a}>{b}': float(r['rates']) for (a, b), r in df.iterrows()}
             out['rates_parts'] = [{f'{a}>{b}': int(v) for (a, b), v in p.counter().items()} for p in sp]
             out['rates_denom'] = float(na * traj.total_time / case['n_parts'])
+            # the same counts taken from the jump tables of the parts and the labels of the sites (several sites share a label)
+            lab_ = list(tr.sites.labels)
+            byd = []
+            for p in sp:
+                c_ = {}
+                for a, b in p.data[['start site', 'destination site']].to_numpy():
+                    k_ = f'{lab_[int(a)]}>{lab_[int(b)]}'
+                    c_[k_] = c_.get(k_, 0) + 1
+                byd.append(c_)
+            out['rates_parts_data'] = byd
         except ValueError as e:
             if 'No jumps found' not in str(e):
                 raise
@@ -208,6 +218,8 @@ def oracle(case, out):
         if abs(rate - want) > 1e-9 * max(abs(want), 1e-300):
             fs.append(('split/rates-not-mean-of-parts', f'rate of {key} is {rate}, the parts hold {counts} such jumps: mean / (atoms x part duration) = {want}'))
             break
+    if 'rates_parts_data' in out and [{k: v for k, v in pc.items() if v} for pc in out['rates_parts']] != out['rates_parts_data']:
+        fs.append(('split/counter-by-label', f'the label-pair counts of the parts {out["rates_parts"]} are not the jumps of their tables counted by label {out["rates_parts_data"]}'))
     if 'jsplit_mr' in out and any(v != case['mr'] for v in out['jsplit_mr']):
         fs.append(('split/jumps-split-settings', f'the parts of Jumps.split use minimal_residence {out["jsplit_mr"]}, the whole uses {case["mr"]}'))
     if out.get('jsplit_raises') and all(len(p) > 0 for p in out['jp']):
